@@ -1,5 +1,5 @@
 """C06 — editing one nested field changes that field and nothing else."""
-from .. import ops_array, ops_frame
+from .. import ops_array, ops_frame, gen
 from ..subject import Subject
 
 ASSUMPTIONS = [
@@ -14,3 +14,19 @@ def run(ctx):
         ops_array.case_field_edits(ctx, s, malformed=(i % 5 == 0))
         if i % 2 == 0:
             ops_frame.case_frame_field_assign(ctx, s)
+        if i % 6 == 0:
+            # as many records as rows, but not one per row (2, missing, 0, 3, 0 …): a flat Series then has the
+            # frame's length although it is not aligned with the frame
+            rng = ctx.rng
+            nr = rng.randint(3, 6)
+            lens = [1] * nr
+            for _ in range(rng.randint(1, 2)):
+                a, b = rng.sample(range(nr), 2)
+                lens[a] += lens[b]
+                lens[b] = 0
+            ty = gen.rand_ty(rng)
+            rows = [(None if rng.random() < 0.5 else [[nm, []] for nm, _ in ty]) if k == 0 else
+                    [[nm, [gen.rand_cell(rng, t) for _ in range(k)]] for nm, t in ty] for k in lens]
+            ops_frame.case_frame_field_assign(ctx, Subject(ctx, content={"ty": ty, "rows": rows}, allow_hidden=False),
+                                              form=rng.choice(["flat_series", "flat_series", "base_series"]),
+                                              label_pattern=rng.choice(["unique_sorted", "unique_unsorted", "range"]))
